@@ -363,6 +363,7 @@ class Ctx:
         self.outside_cases = 0        # cases no property speaks about (compared all the same; a refusal there is no violation)
         self.outside_refusals = 0
         self.replayable = []          # (line, proj, model answer) of agreeing cases, for the shared-object session
+        self.replay_per_op = collections.Counter()
         self.extra = {}
 
     def sub(self, name):
@@ -414,8 +415,13 @@ class Ctx:
             outside = c.outside or outside_domain(c.line)
             if outside:
                 self.outside_cases += 1
-            if pg == pw and not outside and (len(self.replayable) < 1500 or (self.evaluations % 17 == 0 and len(self.replayable) < 6000)):
-                self.replayable.append((c.line, c.proj, w))
+            if pg == pw and not outside:
+                wl = c.line.split(None, 8)
+                opk = wl[0] + (" " + wl[7] if wl[0] == "cvn" and len(wl) > 7 else "")
+                # every operation keeps its share of replayable cases (the sessions sample from these), whatever stream came first
+                if self.replay_per_op[opk] < 200 or (len(self.replayable) < 1500 or (self.evaluations % 17 == 0 and len(self.replayable) < 9000)):
+                    self.replay_per_op[opk] += 1
+                    self.replayable.append((c.line, c.proj, w))
             if pg != pw and outside and g.split()[:2] in (["err", "ValueError"], ["err", "TypeError"]):
                 # no property says what this call must do, and it is refused: nothing is violated, whatever the model does
                 self.outside_refusals += 1
